@@ -225,32 +225,39 @@ fn copied(cfg: &Cfg, maxlen: usize) -> Report {
     })
 }
 
-fn array_chunks(cfg: &Cfg, maxlen: usize) -> Report {
+fn array_chunks<T: std::fmt::Debug + Clone + Sync + Send>(cfg: &Cfg, ty: &'static str, mk: &(dyn Fn(usize) -> T + Sync), maxlen: usize) -> Report {
     par_for(cfg, maxlen + 1, |len, r| {
-        let v: Vec<u16> = (0..len).map(|k| 100 + k as u16).collect();
-        let sl: &[u16] = &v;
+        let v: Vec<T> = (0..len).map(|k| mk(k)).collect();
+        let sl: &[T] = &v;
+        let zst = core::mem::size_of::<T>() == 0;
         let mut rng = Rng::new(cfg.seed ^ 99);
         macro_rules! ac {
             ($($n:literal)*) => {$({
                 let (warr, wrem) = sl.as_chunks::<$n>();
                 let steps = warr.len() + 2;
+                // constructing the iterator must not panic (a division by zero for ZSTs would)
+                r.ev("array_chunks:construct");
+                if catch(|| { let _ = ks::array_chunks::<T, $n>(sl); }).is_err() {
+                    r.fail("array_chunks", "array_chunks", format!("T={} len={} N={} construction", ty, len, $n), "<panic>".into(), format!("{} chunks", warr.len()));
+                } else {
                 for &m in &masks_for(cfg, steps, &mut rng) {
-                    let desc = format!("T=u16 len={} N={}", len, $n);
-                    let ieq = |g: &&[u16; $n], w: &&[u16; $n]| core::ptr::eq(*g, *w);
-                    let sh = |x: &[u16; $n]| rel(sl, &x[..]);
-                    let extra = |k: &ks::ArrayChunks<'_, u16, $n>, _s: &std::slice::Iter<'_, [u16; $n]>| {
+                    let desc = format!("T={} len={} N={}", ty, len, $n);
+                    let ieq = |g: &&[T; $n], w: &&[T; $n]| zst || core::ptr::eq(*g, *w);
+                    let sh = |x: &[T; $n]| rel(sl, &x[..]);
+                    let extra = |k: &ks::ArrayChunks<'_, T, $n>, _s: &std::slice::Iter<'_, [T; $n]>| {
                         let g = k.remainder();
                         if same(g, wrem) { None } else { Some((format!("remainder {}", rel(sl, g)), format!("remainder {}", rel(sl, wrem)))) }
                     };
-                    drive!(r, "array_chunks", desc, m, steps, ks::array_chunks::<u16, $n>(sl), warr.iter(), ieq, sh, sh, extra);
-                    drive!(r, "array_chunks.rev", desc, m, steps, ks::array_chunks::<u16, $n>(sl).rev(), RevI(warr.iter()), ieq, sh, sh, |k: &ks::ArrayChunksRev<'_, u16, $n>, _s: &RevI<std::slice::Iter<'_, [u16; $n]>>| {
+                    drive!(r, "array_chunks", desc, m, steps, ks::array_chunks::<T, $n>(sl), warr.iter(), ieq, sh, sh, extra);
+                    drive!(r, "array_chunks.rev", desc, m, steps, ks::array_chunks::<T, $n>(sl).rev(), RevI(warr.iter()), ieq, sh, sh, |k: &ks::ArrayChunksRev<'_, T, $n>, _s: &RevI<std::slice::Iter<'_, [T; $n]>>| {
                         let kk = k.copy().rev();
                         let g = kk.remainder();
                         if same(g, wrem) { None } else { Some((format!("remainder {}", rel(sl, g)), format!("remainder {}", rel(sl, wrem)))) }
                     });
                     if m != 0 && m != (1u64 << steps) - 1 && warr.len() >= 2 {
-                        r.nt(&("array_chunks", len, $n, m));
+                        r.nt(&("array_chunks", ty, len, $n, m));
                     }
+                }
                 }
             })*};
         }
@@ -266,7 +273,9 @@ pub fn run(cfg: &Cfg) -> (&'static str, Report, String, String) {
     // all-equal elements: sub-slices are only distinguishable by address
     rep.merge(run_elem::<u8>(cfg, "u8(all-equal)", &|_| 7u8, cfg.by(2, 5, 7)));
     rep.merge(copied(cfg, maxlen));
-    rep.merge(array_chunks(cfg, cfg.by(3, 9, 12)));
+    rep.merge(array_chunks::<u16>(cfg, "u16", &|k| 100 + k as u16, cfg.by(3, 9, 12)));
+    rep.merge(array_chunks::<()>(cfg, "()", &|_| (), cfg.by(2, 7, 9)));
+    rep.merge(array_chunks::<String>(cfg, "String", &|k| format!("s{}", k), cfg.by(2, 5, 7)));
     (
         "C08",
         rep,
